@@ -418,3 +418,44 @@
         kani::cover!(got.val[0] != g1v2_octet(&s.cur[0]));
         std::mem::forget(s);
     }
+
+    // ---- C10 / C11: the packed variation g1v1 may only be used for a point whose REPORTED (selected, request-time) flags are
+    // plain ONLINE; the decision must be taken on the snapshot, not on the point's current value.
+    pub(crate) static mut PV_N: usize = 0;
+    pub(crate) static mut PV_VAR: [u8; 4] = [0; 4];
+    impl<T> RangeWriter<T> {
+        /// contract stub: always room; logs the variation the caller decided to write (1 = g1v1 packed, 2 = g1v2, 0 = other)
+        pub(crate) fn stub_write_logvar(&mut self, _cursor: &mut WriteCursor, _index: u16, _value: &T, info: crate::outstation::database::details::range::traits::WriteInfo<T>) -> Result<(), BadWrite> {
+            unsafe {
+                if PV_N < 4 {
+                    PV_VAR[PV_N] = if info.variation == crate::app::variations::Variation::Group1Var1 { 1 } else if info.variation == crate::app::variations::Variation::Group1Var2 { 2 } else { 0 };
+                }
+                PV_N += 1;
+            }
+            Ok(())
+        }
+    }
+
+    // @harness ids=C10,C11 tier=quick fsa=2048 stubs=1 kind=bounded bound="one binary input at index 3 configured for g1v1; value at request time and the later update symbolic" units=outstation::database::details::range::static_db::StaticDatabase::write_typed_range,outstation::database::details::range::traits::StaticVariation::promote timeout=900 note="default variation g1v1 (packed, no flag octet): the writer is handed g1v1 IFF the flags of the request-time snapshot are plain ONLINE, else g1v2 - whatever the point was updated to after the request was processed"
+    #[kani::proof]
+    #[kani::unwind(6)]
+    #[kani::stub(RangeWriter::write, RangeWriter::stub_write_logvar)]
+    fn vk_c10_promote_decided_on_snapshot() {
+        let mut s = new_series::<1>([3]);
+        let snap = s.cur[0];
+        let iin2 = s.db.select(StaticReadHeader::Binary(None, Some(IndexRange::new(3, 3))));
+        assert!(iin2.value == 0);
+        update_all(&mut s); // the application changes the point while the response is pending
+        unsafe { PV_N = 0; }
+        let mut buf = [0u8; 8];
+        let mut cursor = WriteCursor::new(&mut buf);
+        let res = s.db.write(&mut cursor);
+        assert!(res.is_ok());
+        assert!(unsafe { PV_N } == 1);
+        // flags other than the state bit (0x80) must be exactly ONLINE (0x01) for the packed format
+        let plain_online = (snap.flags.value & 0x7F) == 0x01;
+        assert!(unsafe { PV_VAR[0] } == if plain_online { 1 } else { 2 });
+        kani::cover!(plain_online && (s.cur[0].flags.value & 0x7F) != 0x01);
+        kani::cover!(!plain_online && (s.cur[0].flags.value & 0x7F) == 0x01);
+        std::mem::forget(s);
+    }
